@@ -88,8 +88,9 @@ func sentinelNames(ss []error) string {
 
 // judge is the verdict context of one group of evaluations.
 type judge struct {
-	idx int
-	n   int64 // evaluations (judged kit calls)
+	idx   int
+	n     int64 // evaluations (judged kit calls)
+	spare int   // buffer layout of the call being judged: -1 exactly-sized slices, else bytes of spare capacity
 }
 
 type replayFn func() map[string]any
@@ -99,7 +100,67 @@ func (j *judge) viol(sig, msg string, rp replayFn) {
 	if rp != nil {
 		r = rp()
 	}
+	if j.spare >= 0 {
+		// the same case passed with exactly-sized slices (eachLayout stops at the first failing layout)
+		sig += "/spare-capacity"
+		msg += fmt.Sprintf(" [only when the caller's slices have spare capacity: %d bytes behind each]", j.spare)
+		if r == nil {
+			r = map[string]any{}
+		}
+		r["buffer_layout"] = fmt.Sprintf("every non-nil []byte argument is back[8:8+n:8+n+%d] of a larger array filled with seeded garbage (n = its length); with exactly-sized slices the same input is handled correctly", j.spare)
+	}
 	rec.Violation(j.idx, sig, msg, r)
+}
+
+// ------------------------------------------------------------ buffer layouts
+
+// curSpare selects how the kit call wrappers hand []byte arguments to kit:
+// -1 = freshly allocated, exactly-sized copies; k >= 0 = slices cut out of a
+// larger backing array with k bytes of spare capacity (seeded garbage) behind
+// the length. A caller may legitimately pass either (a read buffer, a pooled
+// buffer, a sub-slice of a message), and kit code that appends to or writes
+// behind an argument only misbehaves in the second layout.
+var (
+	curSpare = -1
+	layRNG   = &mon.RNG{}
+)
+
+func lay(b []byte) []byte {
+	if b == nil {
+		return nil
+	}
+	if curSpare < 0 {
+		return clone(b)
+	}
+	const front = 8
+	back := layRNG.Bytes(front + len(b) + curSpare)
+	copy(back[front:], b)
+	return back[front : front+len(b) : front+len(b)+curSpare]
+}
+
+// spareLayouts: no room at all inside a larger array, one AES block, more than
+// any hash output, and "room for two tags and a bit".
+func spareLayouts(tagLen int) []int { return []int{0, 16, 64, 2*tagLen + 8} }
+
+// eachLayout runs one case (f performs the kit call(s) and judges them,
+// returning false if it recorded a violation) with exactly-sized slices and
+// then with every spare-capacity layout. It stops at the first layout that
+// fails, so one defect gives one signature per case. class names the counter
+// "<class>.spare_capacity".
+func (j *judge) eachLayout(class string, tagLen int, f func() bool) {
+	defer func() { curSpare, j.spare = -1, -1 }()
+	curSpare, j.spare = -1, -1
+	if !f() {
+		return
+	}
+	for _, sp := range spareLayouts(tagLen) {
+		curSpare, j.spare = sp, sp
+		ok := f()
+		rec.Count(class+".spare_capacity", 1)
+		if !ok {
+			return
+		}
+	}
 }
 
 // reject judges a call that must fail: no panic, an error (one of sentinels
@@ -312,6 +373,7 @@ func plan() []group {
 			for _, a := range []string{"A128CBC-HS256", "A192CBC-HS384", "A256CBC-HS384", "A256CBC-HS512"} {
 				gs = append(gs, group{"aescbcaead-direct", a, r})
 			}
+			gs = append(gs, group{"padding-direct", "", r})
 		}
 	}
 	return gs
@@ -326,13 +388,14 @@ func TestCheck(t *testing.T) {
 		"Clauses: roundtrip+interop (plaintext lengths 0..65 quick / 0..80 thorough plus larger; kit output compared byte-for-byte with, and decrypted by, the reference; reference output decrypted by kit; "+
 		"asymmetric: kit<->crypto/rsa, crypto/ecdsa, crypto/ed25519 both directions), tamper (one bit in every byte of every component, 8 bits in thorough; length -8..+8), "+
 		"keys (sizes 0,8,15,16,17,24,32,33,48,64 and every other key kind), noncetag (nonce and tag lengths 0..32), ctlen (ciphertext lengths 0..65/0..80), names (near-miss algorithm names on every entry point), vectors (RFC 3394 section 4, RFC 7518 appendix B). "+
+		"Buffer layouts: every tamper and wrong-size case of the symmetric entry points (crypto.EncryptSymmetric/DecryptSymmetric/Encrypt/Decrypt, aeskw.Wrap/Unwrap, aescbcaead Seal/Open, padding) is run with exactly-sized argument slices and again with the arguments cut out of a larger array with 0, 16, 64 and 2*tagSize+8 bytes of spare capacity (seeded garbage) behind their length; same oracle, signature suffix /spare-capacity, counters <class>.spare_capacity. "+
 		"Every evaluation is non-trivial (it reaches kit with an input the clause quantifies over); distinct = evaluated because tuples are not repeated within a group and groups differ in algorithm or seeded material.")
 	rec.Note("require", []string{
 		"sym.roundtrip.ok", "sym.interop.kit_equals_reference", "sym.interop.kit_decrypts_reference", "sym.tamper.rejected",
 		"rejected.with_sentinel", "rejected.any_error", "vectors.rfc3394.ok", "vectors.rfc7518.ok",
 		"rsa.roundtrip.ok", "rsa.interop.std_decrypts_kit", "rsa.interop.kit_decrypts_std", "rsa.tamper.rejected",
 		"sig.roundtrip.ok", "sig.interop.std_verifies_kit", "sig.interop.kit_verifies_std", "sig.tamper.rejected",
-		"names.rejected"})
+		"names.rejected", "tamper.spare_capacity", "wrongsize.spare_capacity", "padding.spare_capacity"})
 	selfCheckRefs()
 	gs := plan()
 	for idx, g := range gs {
@@ -340,7 +403,8 @@ func TestCheck(t *testing.T) {
 			continue
 		}
 		rec.Begin(idx, g.String())
-		j := &judge{idx: idx}
+		j := &judge{idx: idx, spare: -1}
+		curSpare, layRNG = -1, mon.NewRNG("c03-layout", idx)
 		switch g.kind {
 		case "vectors":
 			runVectors(j)
@@ -360,6 +424,8 @@ func TestCheck(t *testing.T) {
 			runKWDirect(j, g)
 		case "aescbcaead-direct":
 			runHSDirect(j, g)
+		case "padding-direct":
+			runPaddingDirect(j, g)
 		case "rsa-roundtrip":
 			runRSARoundTrip(j, g)
 		case "rsa-tamper":
